@@ -13,6 +13,12 @@
 (*         candidate tuples (cand_..), quantiser object identities (qid_..),   *)
 (*         what the probing cost specification was shown (pr_..)              *)
 (*   bit_identical, export_ok, cost (x100), cost_ok, metrics, ...           *)
+(*   hist  the public calls made between the coefficient write and the cost *)
+(*         read (forward passes in eval / hard / hard-Gumbel mode, loads of *)
+(*         other coefficients, export, summary, update_softmax_options);    *)
+(*         th_.. = the assignment the SAMPLED coefficients (theta_alpha)     *)
+(*         encode when the cost is read, th_hot = theta is one-hot;         *)
+(*         cost2 = the metrics read again in the reverse order; full        *)
 (* EVERYTHING the observations are compared with is computed HERE from the  *)
 (* logged architecture with the operators of MPSLife (reference dataflow    *)
 (* QPoint, groups GS, exact costs ExactInt / ExactMilli, as-implemented     *)
@@ -30,7 +36,9 @@ NA == -9
 RecIdx(t, n) == CHOOSE i \in DOMAIN t.L : t.L[i].n = n
 HasRec(t, n) == \E i \in DOMAIN t.L : t.L[i].n = n
 Rec(t, n)    == t.L[RecIdx(t, n)]
-HId(a, q)    == IF q = InQ(a) THEN 0 ELSE q                 \* the harness calls the input quantiser node 0
+\* the harness calls the input quantiser node 0; a layer is recorded under the node that owns the layer object
+HId(a, q)    == IF q = InQ(a) THEN 0 ELSE IF IsLayer(a, q) THEN Owner(a, q) ELSE q
+RecL(t, L)   == Rec(t, Owner(t.arch, L))
 Least(S)     == CHOOSE x \in S : \A y \in S : x <= y
 Abs(x)       == IF x < 0 THEN -x ELSE x
 Str(x)       == ToString(x)
@@ -44,7 +52,9 @@ MissingRecs(t) == {n \in QIds(t.arch) : ~HasRec(t, n)}
 ExtraRecs(t)   == {i \in DOMAIN t.L : t.L[i].n \notin QIds(t.arch) \/ t.L[i].kind # KindOf(t.arch, t.L[i].n)}
 LayersOf(t)    == Layers(t.arch)
 SuBad(t)       == {n \in QIds(t.arch) : ~Rec(t, n).su_ok
-                                        \/ (n \in LayersOf(t) /\ Len(Rec(t, n).su_w) # Ch(t.arch, n))}
+                                        \/ (n \in LayersOf(t) /\ (Len(Rec(t, n).su_w) # Ch(t.arch, n)
+                                                                  \/ Len(Rec(t, n).th_w) # Ch(t.arch, n)))}
+HistBad(t)     == t.hist_err # ""
 
 (* --------------------------- C02 --------------------------------------- *)
 SameTriple(r, p) ==       \* p \in {"ex", "am"} compared with summary()
@@ -53,28 +63,30 @@ SameTriple(r, p) ==       \* p \in {"ex", "am"} compared with summary()
 TripleStr(i, w, o) == "(in " \o Str(i) \o ", w " \o Str(w) \o ", out " \o Str(o) \o ")"
 
 PlumbBad(t, gs) ==        \* layers whose exported input precision is not the exported output precision of their producer
-    {L \in LayersOf(t) : Rec(t, L).ex_i # Rec(t, HId(t.arch, RefIn(gs, t.arch, L))).ex_o}
+    {L \in LayersOf(t) : RecL(t, L).ex_i # Rec(t, HId(t.arch, RefIn(gs, t.arch, L))).ex_o}
 
 Drift02(t, gs) ==
     LET a == t.arch IN
-    IF t.conflict THEN "drift:two quantiser groups of the specification share one quantiser object"
+    IF \E L \in LayersOf(t) : ReuseSplit(gs, a, L) THEN "ok"      \* which call site's group a split module joins is not predicted
+    ELSE IF t.conflict THEN "drift:two quantiser groups of the specification share one quantiser object"
     ELSE IF \E n \in QIds(a) : Rec(t, n).am_o # Rec(t, n).want_o \/ Rec(t, n).am_w # Rec(t, n).want_w
          THEN "drift:the coefficients written through a layer are not the ones its quantisers hold (sharing differs from the groups of the specification)"
     ELSE IF \E n, m \in QIds(a) :
                 (AGroup(gs, a, IF n = 0 THEN InQ(a) ELSE n) = AGroup(gs, a, IF m = 0 THEN InQ(a) ELSE m))
                     # (Rec(t, n).qid_o = Rec(t, m).qid_o)
          THEN "drift:activation quantisers are not shared exactly inside the groups of the specification"
-    ELSE IF \E n, m \in LayersOf(t) : (WGroup(gs, n) = WGroup(gs, m)) # (Rec(t, n).qid_w = Rec(t, m).qid_w)
+    ELSE IF \E n, m \in Owners(a) : (WGroup(gs, n) = WGroup(gs, m)) # (Rec(t, n).qid_w = Rec(t, m).qid_w)
          THEN "drift:weight quantisers are not shared exactly inside the groups of the specification"
     ELSE IF \E n \in QIds(a) : (Rec(t, n).su_o = Float) # IsFloatGroup(gs, AGroup(gs, a, IF n = 0 THEN InQ(a) ELSE n))
          THEN "drift:the set of unquantised (output-connected) activations differs from the specification"
     ELSE "ok"
 
 Check02(t) ==
-    LET a == t.arch  gs == GS(t.arch) IN
+    LET a == t.arch  gs == GS("fixed", t.arch) IN
     IF ~t.build_ok THEN "C02.convert: MPS(...) raised on an architecture of the grammar: " \o t.build_err
     ELSE IF MissingRecs(t) # {} THEN "C02.convert node " \o Str(Least(MissingRecs(t))) \o ": no searchable module was created for this quantisation point"
     ELSE IF ExtraRecs(t) # {} THEN "C02.convert: a searchable module was created that is no quantisation point of the dataflow"
+    ELSE IF HistBad(t) THEN "C02.call: a public call raised: " \o t.hist_err
     ELSE IF ~t.export_done THEN "trace: scenario without export"
     ELSE IF ~t.export_ok THEN "C02.export: export() raised " \o t.export_err
     ELSE IF SuBad(t) # {} THEN "C02.summary node " \o Str(Least(SuBad(t))) \o ": summary() has no usable entry"
@@ -91,10 +103,14 @@ Check02(t) ==
                   \o " but the largest coefficients select " \o TripleStr(r.am_i, r.am_w, r.am_o)
     ELSE IF PlumbBad(t, gs) # {}
          THEN LET L == Least(PlumbBad(t, gs))  p == HId(a, RefIn(gs, a, L)) IN
-              IF \A x \in PlumbBad(t, gs) : F40Layer(gs, a, x) /\ Rec(t, x).ex_i = Rec(t, 0).ex_o
+              IF \A x \in PlumbBad(t, gs) : ReuseSplit(gs, a, x)
+              THEN "known:F66:layer object of node " \o Str(Owner(a, L)) \o " is invoked at call sites whose producers are quantised by different groups: at call site "
+                       \o Str(L) \o " it consumes the " \o Str(Rec(t, p).ex_o) \o "-bit output of node " \o Str(p) \o " but its single input quantiser reports "
+                       \o Str(RecL(t, L).ex_i) \o " bit"
+              ELSE IF \A x \in PlumbBad(t, gs) : F40Layer(gs, a, x) /\ RecL(t, x).ex_i = Rec(t, 0).ex_o
               THEN "known:F40:layer " \o Str(L) \o " consumes the tensor re-quantised by node " \o Str(p) \o " ("
-                       \o Str(Rec(t, p).ex_o) \o " bit) but takes the network-input quantiser (" \o Str(Rec(t, L).ex_i) \o " bit) as its input quantiser"
-              ELSE "C02.plumb layer " \o Str(L) \o ": exported input precision " \o Str(Rec(t, L).ex_i)
+                       \o Str(Rec(t, p).ex_o) \o " bit) but takes the network-input quantiser (" \o Str(RecL(t, L).ex_i) \o " bit) as its input quantiser"
+              ELSE "C02.plumb layer " \o Str(L) \o ": exported input precision " \o Str(RecL(t, L).ex_i)
                        \o " but the tensor it consumes is produced by node " \o Str(p) \o " with output precision " \o Str(Rec(t, p).ex_o)
     ELSE IF ~t.bit_identical
          THEN "C02.bit-identical: the exported model and the eval-mode MPS model differ (max |diff| x1e6 = " \o Str(t.maxdiff_e6) \o ")"
@@ -102,29 +118,37 @@ Check02(t) ==
 
 (* --------------------------- C05 --------------------------------------- *)
 SeqToSet(s) == {s[i] : i \in DOMAIN s}
-WBitsObs(t) == [L \in LayersOf(t) |-> Rec(t, L).su_w]
+(* The assignment the cost is compared with is the one the SAMPLED coefficients encode (th_..): in eval mode   *)
+(* and in hard-sampling mode with the plain sampler it must ALSO be the one summary() reports (clause fresh);   *)
+(* with hard Gumbel sampling, or when other coefficients were installed since the last forward pass, theta is   *)
+(* a one-hot of another assignment and only "cost = exact cost of the sampled assignment" is claimed.           *)
+WBitsObs(t) == [L \in LayersOf(t) |-> RecL(t, L).th_w]
+InObs(t, L) == RecL(t, L).th_i
+TS(t)       == ThetaState(t.hist)
+AllHot(t)   == \A n \in QIds(t.arch) : Rec(t, n).th_hot
+SameAsSummary(r) == r.th_o = r.su_o /\ r.th_i = r.su_i /\ r.th_w = r.su_w
 
 \* plinio evaluates the cost function for EVERY pair of candidate precisions; a metric is applicable to the
 \* model iff it is defined on all of them (documented restrictions of mpic / ne16)
 MetricApplicable(t, m) ==
-    \A L \in LayersOf(t) : \A w \in SeqToSet(Rec(t, L).cand_w) : \A ab \in SeqToSet(Rec(t, L).cand_i) :
+    \A L \in LayersOf(t) : \A w \in SeqToSet(RecL(t, L).cand_w) : \A ab \in SeqToSet(RecL(t, L).cand_i) :
         Applicable(m, t.arch, L, w, ab)
 
 RECURSIVE SumOver(_, _)
 SumOver(f, S) == IF S = {} THEN 0 ELSE LET x == CHOOSE y \in S : TRUE IN f[x] + SumOver(f, S \ {x})
 
+\* a shared metric charges every layer OBJECT once, a per-invocation metric every CALL SITE with its own geometry
 ExactTotal(t, m) ==      \* integer metrics
-    LET a == t.arch  wb == WBitsObs(t) IN
-    SumOver([L \in LayersOf(t) |-> ExactInt(m, a, L, wb[L], Rec(t, L).su_i, InEffW(a, wb, L))], LayersOf(t))
-ExactTotalMilli(t, m) == \* MPIC (rational look-up table), thousandths rounded down per (layer, precision class)
-    LET a == t.arch  wb == WBitsObs(t) IN
-    SumOver([L \in LayersOf(t) |-> ExactMilli(m, a, L, wb[L], Rec(t, L).su_i, InEffW(a, wb, L))], LayersOf(t))
-\* as implemented, in hundredths rounded down per layer
+    LET a == t.arch  wb == WBitsObs(t)  S == CostSites(m, a) IN
+    SumOver([L \in S |-> ExactInt(m, a, L, wb[L], InObs(t, L), InEffW(a, wb, L))], S)
+ExactTotalMilli(t, m) == \* MPIC (rational look-up table), thousandths rounded down per (call site, precision class)
+    LET a == t.arch  wb == WBitsObs(t)  S == CostSites(m, a) IN
+    SumOver([L \in S |-> ExactMilli(m, a, L, wb[L], InObs(t, L), InEffW(a, wb, L))], S)
+\* as implemented, in hundredths rounded down per call site
 AsisTotalCenti(t, m, lin) ==
-    LET a == t.arch  wb == WBitsObs(t) IN
-    SumOver([L \in LayersOf(t) |->
-                (AsisNum(m, lin, a, L, wb, Rec(t, L).su_i, Rec(t, L).cand_w, t.cfg.wt = "pc") * 100) \div AsisDen(wb, L)],
-            LayersOf(t))
+    LET a == t.arch  wb == WBitsObs(t)  S == CostSites(m, a) IN
+    SumOver([L \in S |->
+                (AsisNum(m, lin, a, L, wb, InObs(t, L), RecL(t, L).cand_w, t.cfg.wt = "pc") * 100) \div AsisDen(wb, L)], S)
 NLayers(t) == Cardinality(LayersOf(t))
 
 (* Tolerances (float32 accumulation in plinio, x100 rounding in the harness):                     *)
@@ -135,7 +159,7 @@ CloseInt(obs, exact)        == Abs(obs - 100 * exact) <= 1 + Abs(exact) \div 100
 CloseCenti(obs, centi, nl)  == Abs(obs - centi) <= 1 + nl + Abs(centi) \div 100000
 CloseMilli(obs, milli, nl)  == Abs(10 * obs - milli) <= 10 + 3 * nl + Abs(milli) \div 50000
 
-AnyF05(t) == \E L \in LayersOf(t) : F05Layer(t.arch, L, WBitsObs(t), Rec(t, L).cand_w, t.cfg.wt = "pc")
+AnyF05(t) == \E L \in LayersOf(t) : F05Layer(t.arch, L, WBitsObs(t), RecL(t, L).cand_w, t.cfg.wt = "pc")
 AnyF04(t) == \E L \in LayersOf(t) : F04Layer(t.arch, L, WBitsObs(t))
 
 V(c, msg) == [c |-> c, s |-> msg]
@@ -144,6 +168,9 @@ OkV == V("ok", "ok")
 CostVerdict(t, m) ==
     IF ~MetricApplicable(t, m) THEN OkV                    \* documented rejection: nothing is required
     ELSE IF ~t.cost_ok[m] THEN V("bad", "C05.cost " \o m \o ": get_cost raised / is not finite on a model the metric supports")
+    ELSE IF ~t.cost2_ok[m] \/ Abs(t.cost2[m] - t.cost[m]) > 1
+         THEN V("bad", "C05.order " \o m \o ": " \o Str(t.cost[m]) \o "/100 when read first, " \o Str(t.cost2[m])
+                           \o "/100 when read again after the other metrics")
     ELSE IF m = "mpic_latency"
          THEN IF CloseMilli(t.cost[m], ExactTotalMilli(t, m), NLayers(t)) THEN OkV
               ELSE V("bad", "C05.cost " \o m \o ": observed " \o Str(t.cost[m]) \o "/100, exact " \o Str(ExactTotalMilli(t, m)) \o "/1000")
@@ -154,8 +181,8 @@ CostVerdict(t, m) ==
     ELSE IF AnyF04(t) /\ CloseCenti(t.cost[m], AsisTotalCenti(t, m, "pinned"), NLayers(t))
          THEN V("known", "known:F04:" \o m \o " = " \o Str(t.cost[m]) \o "/100 instead of " \o Str(ExactTotal(t, m))
                   \o ": a Linear layer is charged for its static in_features / out_features although channels were pruned")
-    ELSE V("bad", "C05.cost " \o m \o ": observed " \o Str(t.cost[m]) \o "/100, exact cost of the assignment reported by summary() is "
-             \o Str(ExactTotal(t, m)))
+    ELSE V("bad", "C05.cost " \o m \o ": observed " \o Str(t.cost[m]) \o "/100, exact cost of the assignment encoded by the sampled coefficients ("
+             \o TS(t) \o ") is " \o Str(ExactTotal(t, m)))
 
 \* first failing entry of a family of verdicts; a genuine clause failure takes precedence over a known signature
 FirstBad(S, F) ==
@@ -164,34 +191,55 @@ FirstBad(S, F) ==
 
 FirstBadMetric(t) == FirstBad(DOMAIN t.metrics, [i \in DOMAIN t.metrics |-> CostVerdict(t, t.metrics[i])])
 
-KeysVerdict(t, L) ==
-    LET a == t.arch  r == Rec(t, L)  wb == WBitsObs(t)
+\* one layer object has one features calculator: the one of its LAST call site
+KeysVerdict(t, M) ==
+    LET a == t.arch  r == Rec(t, M)  wb == WBitsObs(t)  L == LastSite(a, M)
         ein == 1000 * InEffW(a, wb, L)   eout == 1000 * OutEffW(wb, L) IN
-    IF r.pr_n = 0 THEN V("bad", "C05.keys layer " \o Str(L) \o ": the cost function of the layer was never called")
+    IF r.pr_n = 0 THEN V("bad", "C05.keys layer " \o Str(M) \o ": the cost function of the layer was never called")
     ELSE IF ~r.pr_consistent
-         THEN V("bad", "C05.keys layer " \o Str(L) \o ": the cost function is not shown one pair of feature counts under the PyTorch names of the layer type")
+         THEN V("bad", "C05.keys layer " \o Str(M) \o ": the cost function is not shown one pair of feature counts under the PyTorch names of the layer type")
     ELSE IF Abs(r.pr_in - ein) <= 1 /\ Abs(r.pr_out - eout) <= 1 THEN OkV
-    ELSE IF Op(a, L) = "lin" /\ r.pr_foreign /\ r.pr_in = 1000 * StaticIn(a, L) /\ r.pr_out = 1000 * StaticOut(a, L)
-         THEN V("known", "known:F04:Linear layer " \o Str(L) \o " is shown in_features/out_features = " \o Str(r.pr_in) \o "/" \o Str(r.pr_out)
+    ELSE IF Op(a, M) = "lin" /\ r.pr_foreign /\ r.pr_in = 1000 * StaticIn(a, L) /\ r.pr_out = 1000 * StaticOut(a, L)
+         THEN V("known", "known:F04:Linear layer " \o Str(M) \o " is shown in_features/out_features = " \o Str(r.pr_in) \o "/" \o Str(r.pr_out)
                   \o " (x1000, static) instead of the effective " \o Str(ein) \o "/" \o Str(eout)
                   \o "; the effective counts are written under in_channels/out_channels")
-    ELSE V("bad", "C05.keys layer " \o Str(L) \o ": shown (in, out) = (" \o Str(r.pr_in) \o ", " \o Str(r.pr_out) \o ") x1000, effective ("
+    ELSE V("bad", "C05.keys layer " \o Str(M) \o ": shown (in, out) = (" \o Str(r.pr_in) \o ", " \o Str(r.pr_out) \o ") x1000, effective ("
              \o Str(ein) \o ", " \o Str(eout) \o ")")
 
 FirstBadKeys(t) ==
-    IF ~t.probe THEN OkV ELSE FirstBad(LayersOf(t), [L \in LayersOf(t) |-> KeysVerdict(t, L)])
+    IF ~t.probe THEN OkV ELSE FirstBad(Owners(t.arch), [M \in Owners(t.arch) |-> KeysVerdict(t, M)])
 
 Drift05(t) ==
-    IF t.conflict THEN "drift:two quantiser groups of the specification share one quantiser object"
+    IF \E L \in LayersOf(t) : ReuseSplit(GS("fixed", t.arch), t.arch, L) THEN "ok"   \* which group a split module joins is not predicted
+    ELSE IF t.conflict THEN "drift:two quantiser groups of the specification share one quantiser object"
     ELSE IF \E n \in QIds(t.arch) : Rec(t, n).su_o # Rec(t, n).want_o \/ Rec(t, n).su_w # Rec(t, n).want_w
          THEN "drift:summary() does not report the precisions written by the harness"
+    ELSE IF t.fresh_model /\ (TS(t) = "soft") = AllHot(t) /\ \E n \in QIds(t.arch) : Len(Rec(t, n).cand_o) > 1
+         THEN "drift:theta of a model that never ran a hard-sampling forward pass is expected to be soft, afterwards one-hot"
     ELSE "ok"
+
+(* full_cost = True on a network with layers that are NOT searched (excluded): every bit-aware cost function  *)
+(* reads w_precision / in_precision, which a fixed layer does not have - get_cost raises KeyError (F65).      *)
+HasFixed(a) == \E n \in 1..N(a) : IsLayer(a, n) /\ Nd(a, n).excl
+CheckFull(t) ==
+    IF \A i \in DOMAIN t.metrics : ~t.cost_ok[t.metrics[i]]
+    THEN "known:F65:full_cost=True with a fixed (not searched) conv / linear layer: get_cost raises for every bit-aware metric (the fixed layer has no w_precision / in_precision)"
+    ELSE "drift:full_cost with fixed layers evaluates now; the specification has no model of the precision charged to fixed layers"
 
 Check05(t) ==
     IF ~t.build_ok THEN "C05.convert: MPS(...) raised on an architecture of the grammar: " \o t.build_err
+    ELSE IF HistBad(t) THEN "C05.call: a public call raised: " \o t.hist_err
+    ELSE IF t.full /\ HasFixed(t.arch) THEN CheckFull(t)
     ELSE IF MissingRecs(t) # {} THEN "C05.convert node " \o Str(Least(MissingRecs(t))) \o ": no searchable module was created for this quantisation point"
     ELSE IF ExtraRecs(t) # {} THEN "C05.convert: a searchable module was created that is no quantisation point of the dataflow"
     ELSE IF SuBad(t) # {} THEN "C05.summary node " \o Str(Least(SuBad(t))) \o ": summary() has no usable entry"
+    ELSE IF ~AllHot(t)
+         THEN IF TS(t) = "soft" THEN "ok"         \* soft coefficients: the cost is a mixture, nothing is claimed
+              ELSE "C05.hard: after a forward pass in a hard-sampling mode (" \o TS(t) \o ") the sampled coefficients are not one-hot"
+    ELSE IF TS(t) = "fresh" /\ \E n \in QIds(t.arch) : ~SameAsSummary(Rec(t, n))
+         THEN LET n == Least({x \in QIds(t.arch) : ~SameAsSummary(Rec(t, x))})  r == Rec(t, n) IN
+              "C05.fresh node " \o Str(n) \o ": after a forward pass in eval / hard mode the sampled coefficients encode "
+                  \o TripleStr(r.th_i, r.th_w, r.th_o) \o " but summary() reports " \o TripleStr(r.su_i, r.su_w, r.su_o)
     ELSE LET c == FirstBadMetric(t)  k == FirstBadKeys(t) IN
          IF c.c = "bad" THEN c.s
          ELSE IF k.c = "bad" THEN k.s
